@@ -390,6 +390,77 @@ edits["R32-isnumberprimitive-reflect-free-reorder"] = [("misc.go", """	case int,
 		return true
 	case float32, float64, complex64, complex128:
 		return true""")]
+
+edits["R33-setkeyword-helper-with-ok"] = [("cond.go", """func (r *condition) setKeyword(kw any) {
+	switch tv := kw.(type) {
+	case string:
+		r.kw = tv
+	default:
+		if meth := getStringer(tv); meth != nil {
+			r.kw = meth()
+		}
+	}
+}""", """func (r *condition) setKeyword(kw any) {
+	if text, ok := keywordText(kw); ok {
+		r.kw = text
+	}
+}
+
+/*
+keywordText returns the textual form of a keyword candidate and
+whether the candidate was recognised as one at all.
+*/
+func keywordText(kw any) (text string, ok bool) {
+	switch tv := kw.(type) {
+	case string:
+		return tv, true
+	default:
+		if meth := getStringer(tv); meth != nil {
+			return meth(), true
+		}
+	}
+	return
+}""")]
+edits["R34-encapvalue-wrap-helper"] = [("misc.go", """			v = sl[0] + v + sl[0]
+		case 2:
+			// char 0 = L, char 1 = R
+			v = sl[0] + v + sl[1]
+		}
+	}
+
+	return v
+}""", """			v = wrapText(sl[0], v, sl[0])
+		case 2:
+			// char 0 = L, char 1 = R
+			v = wrapText(sl[0], v, sl[1])
+		}
+	}
+
+	return v
+}
+
+// wrapText returns v between l and r.
+func wrapText(l, v, r string) string {
+	return l + v + r
+}""")]
+edits["R35-defrag-record-then-return"] = [("stack.go", """		r.setErr(err)
+		if err == nil && last >= 0 {
+			// chop off the remaining consecutive nil slices
+			(*r) = (*r)[:last+1]
+		}""", """		r.setErr(err)
+		if err != nil {
+			return
+		}
+		if last >= 0 {
+			// chop off the remaining consecutive nil slices
+			(*r) = (*r)[:last+1]
+		}""")]
+edits["R36-setsymbol-list-early-return"] = [("stack.go", """func (r *stack) setSymbol(c ...any) {
+	var str string""", """func (r *stack) setSymbol(c ...any) {
+	if cfg, _ := r.config(); cfg.typ == list {
+		return
+	}
+	var str string""")]
 name = sys.argv[1]
 os.makedirs("/var/tmp/rfgen", exist_ok=True)
 A, B = "/var/tmp/rfgen/a", "/var/tmp/rfgen/b"
